@@ -480,6 +480,12 @@ type SC struct {
 func HarnessCompositeElements() {
 	a, b, c := verif.Int("a"), verif.Int("b"), verif.Int("c")
 	h := &SH{slices: [][]int64{{a, 1}, {b, 2}, {c}}, maps: []map[string]int64{{"x": a}, {"y": b}, {"z": c}}}
+	withNulls := verif.Bool("elements_that_encode_as_null")
+	if withNulls {
+		// nil batches / nil maps are elements too: each is delivered (as a nil value), none is skipped
+		h.slices = [][]int64{{a, 1}, nil, {b, 2}, nil, {c}}
+		h.maps = []map[string]int64{{"x": a}, nil, {"y": b}, nil, {"z": c}}
+	}
 	srv := jsonrpc.NewServer()
 	srv.Register("H", h)
 	url, stop := verif.ServeWS(srv)
@@ -490,9 +496,15 @@ func HarnessCompositeElements() {
 		ch, e := cl.Maps(context.Background())
 		verif.Assert(e == nil && ch != nil, "subscribe")
 		var got []map[string]int64
+		nils := 0
 		for v := range ch {
+			if withNulls && v == nil {
+				nils++
+				continue
+			}
 			got = append(got, v)
 		}
+		verif.Assert(!withNulls || nils == 2, "null-elements-are-delivered-too")
 		verif.Assert(len(got) == 3, "all-values-delivered")
 		if len(got) == 3 {
 			verif.Assert(len(got[0]) == 1 && got[0]["x"] == a, "first-map-intact")
@@ -503,9 +515,15 @@ func HarnessCompositeElements() {
 		ch, e := cl.Slices(context.Background())
 		verif.Assert(e == nil && ch != nil, "subscribe")
 		var got [][]int64
+		nils := 0
 		for v := range ch {
+			if withNulls && v == nil {
+				nils++
+				continue
+			}
 			got = append(got, v)
 		}
+		verif.Assert(!withNulls || nils == 2, "null-elements-are-delivered-too")
 		verif.Assert(len(got) == 3, "all-values-delivered")
 		if len(got) == 3 {
 			verif.Assert(len(got[0]) == 2 && got[0][0] == a && got[0][1] == 1, "first-slice-intact")
